@@ -3,30 +3,55 @@
 Sources: osaca/semantics/hw_model.py (INTERNAL_VERSION, __init__, _get_cached, _write_in_cache and the
 helpers they call), osaca/utils.py (DATA_DIRS, CACHE_DIR), osaca/data/_build_cache.py, and the list
 of shipped model files.  Everything is located by structure (which calls are made on what), not by
-variable names, so a harmless renaming changes nothing; a change of behaviour flips a flag or a
-constant, and the theorems of Props/C17 that mention it stop compiling.
+variable names or spelling (helpers: astutil_G1.py), so a harmless rewrite changes nothing; a change of
+behaviour flips a flag or a constant, and the theorems of Props/C17 that mention it stop compiling.
+
+Tolerated (same output):
+  * cache file names written as `"." + p.stem + "_" + h`, `".{}_{}".format(p.stem, h)`, `".%s_%s" % (..)`,
+    `f".{p.stem}_{h}"`, `"".join([...])`, with `{0}` / `{name}` / `{0.stem}` fields, `str(..)` wrappers, the
+    name or its pieces bound to locals first, literal pieces split or taken from constants; the home name as
+    `D / name`, `D.joinpath(name)` or `Path(D, name)`; the path expression hoisted (`q = p.with_name(..)`);
+    the slots are recognised by what they ARE (`<x>.stem`; a `hashlib` hexdigest of `<x>.read_bytes()`,
+    inline or bound to any local; `hashlib.sha256(..)`, `sha256(..)` imported from hashlib, `hashlib.new("sha256", ..)`;
+    the bytes bound to a local first);
+  * INTERNAL_VERSION and the suffix as constant expressions;
+  * the version test / the `not lazy` guards in any equivalent control-flow form: nested `if`, `and`, conditional
+    expression, `else` of the negated test, guard clause with early return / continue, De Morgan, mirrored `==`;
+  * `cached = self._get_cached(..) if not lazy else False` as an if/else statement; `if not cached` with swapped branches;
+  * `pickle.load` / `pickle.loads`, also imported by name; the elements of DATA_DIRS / CACHE_DIR with constants
+    folded (`"~/.osaca" + "/data"`).  (DATA_DIRS must stay a list: a tuple would change the text of find_datafile's
+    error message.)
+Insisted on: two cache-hit returns in `_get_cached` (companion probed first), each under the version test; one
+`_get_cached` call, one `_write_in_cache` call and one runtime-cache store in `__init__`; two `os.access(.., os.W_OK)`
+tests; reader and writer build the same names with the same hash.  A loop over the two candidate files, or a hit
+returned through a result variable, is NOT recognised (fails loudly).
+No module of the analysed tree is imported or executed.
 """
 import ast
 import glob
 import hashlib
 import os
+import sys
 
-import translate as T
-from translate import TranslateError, generator, parse, find_func, txt, txt_list, HEADER
+sys.path.insert(0, os.path.dirname(os.path.abspath(__file__)))
+import astutil_G1 as U  # noqa: E402
+
+# the plug-in and its helpers are inputs too: a change of either regenerates the file
+SELF = ["../verif-self:tools/gen/cacheconsts.py", "../verif-self:tools/gen/astutil_G1.py"]
+
+import translate as T  # noqa: E402
+from translate import TranslateError, generator, parse, find_func, txt, txt_list, HEADER  # noqa: E402
 
 HW = "osaca/semantics/hw_model.py"
 CLS = "MachineModel"
+VERSION_ATTR = "INTERNAL_VERSION"
+VERSION_KEY = "internal_version"
+
+parents = U.parents
+_contains = U.contains
 
 
 # --------------------------------------------------------------------------- AST helpers
-def parents(tree):
-    par = {}
-    for node in ast.walk(tree):
-        for ch in ast.iter_child_nodes(node):
-            par[ch] = node
-    return par
-
-
 def is_attr_call(node, attr, base=None):
     """`<base>.<attr>(...)`"""
     if not (isinstance(node, ast.Call) and isinstance(node.func, ast.Attribute) and node.func.attr == attr):
@@ -36,11 +61,20 @@ def is_attr_call(node, attr, base=None):
     return isinstance(node.func.value, ast.Name) and node.func.value.id == base
 
 
-def class_methods(tree, cls):
-    for node in ast.walk(tree):
-        if isinstance(node, ast.ClassDef) and node.name == cls:
-            return {n.name: n for n in node.body if isinstance(n, ast.FunctionDef)}
-    raise TranslateError("class %s not found" % cls)
+def is_lib_call(node, sc, lib, names):
+    """`lib.f(...)` or `f(...)` with `from lib import f` -> f (for f in names), else None"""
+    if not isinstance(node, ast.Call):
+        return None
+    f = node.func
+    if isinstance(f, ast.Attribute) and isinstance(f.value, ast.Name) and f.value.id == lib and f.attr in names:
+        return f.attr
+    if isinstance(f, ast.Name):
+        b = sc.module().bind.get(f.id)
+        if b and len(b) == 1 and b[0][0] == "import" and isinstance(b[0][1], ast.ImportFrom) \
+                and b[0][1].module == lib and not b[0][1].level and b[0][2].name in names \
+                and f.id not in sc.bind:
+            return b[0][2].name
+    return None
 
 
 def method_closure(methods, start):
@@ -87,175 +121,247 @@ def in_protected_try(node, par):
     return False
 
 
-def _contains(root, node):
-    return any(n is node for n in ast.walk(root))
+def is_hexdigest(n):
+    return is_attr_call(n, "hexdigest") and not n.args and not n.keywords
 
 
-def name_parts(expr, stem_attr="stem"):
-    """`"." + p.stem + "_" + hexhash` -> [(0, "."), (1, ""), (0, "_"), (2, "")]
-    kinds: 0 literal text, 1 the file's stem, 2 the content hash (any plain variable)."""
-    if isinstance(expr, ast.BinOp) and isinstance(expr.op, ast.Add):
-        return name_parts(expr.left) + name_parts(expr.right)
-    if isinstance(expr, ast.Constant) and isinstance(expr.value, str):
-        return [(0, expr.value)]
-    if isinstance(expr, ast.Attribute) and expr.attr == stem_attr:
-        return [(1, "")]
-    if isinstance(expr, ast.Name):
-        return [(2, expr.id)]
-    raise TranslateError("cache file name: unexpected expression %s" % ast.unparse(expr))
+def name_parts(expr, sc):
+    """`"." + p.stem + "_" + hexhash` (in any formatting style) -> ([(0, "."), (1, ""), (0, "_"), (2, "")], hash call)
+    kinds: 0 literal text, 1 the file's stem, 2 the content hash (a hashlib hexdigest, inline or via a local)."""
+    parts, hcall = [], None
+    for kind, v in U.template_parts(expr, sc):
+        if kind == "lit":
+            parts.append((0, v))
+            continue
+        n = sc.deref(v)
+        if isinstance(n, ast.Attribute) and n.attr == "stem":
+            parts.append((1, ""))
+        elif is_hexdigest(n):
+            if hcall is not None and not U.same(hcall, n):
+                raise TranslateError("cache file name: two different hashes in %s" % ast.unparse(expr))
+            hcall = n
+            parts.append((2, ""))
+        else:
+            raise TranslateError("cache file name: unexpected expression %s" % ast.unparse(v))
+    return parts, hcall
 
 
-def cache_name_exprs(fn):
-    """The two `….with_suffix(<const>)` expressions of a function: (kind, parts, suffix, hashvar)
-    kind = 'companion' for `p.with_name(E).with_suffix(S)`, 'home' for `(Path(DIR) / E).with_suffix(S)`."""
+class CacheName:
+    def __init__(self, kind, parts, suffix, hcall, node, base):
+        self.kind, self.parts, self.suffix, self.hcall, self.node, self.base = kind, parts, suffix, hcall, node, base
+
+    def doc(self):
+        """canonical pseudo-code of the expression (independent of the formatting style of the source)"""
+        pieces = [repr(t) if k == 0 else ("p.stem" if k == 1 else "hexhash") for k, t in self.parts]
+        e = " + ".join(pieces)
+        if self.kind == "companion":
+            return "p.with_name(%s).with_suffix(%r)" % (e, self.suffix)
+        return "(%s / %s).with_suffix(%r)" % (self.base, "(%s)" % e if len(pieces) > 1 else e, self.suffix)
+
+
+def cache_name_exprs(sc):
+    """The two `….with_suffix(<const>)` expressions of a function, by kind:
+    'companion' for `p.with_name(E).with_suffix(S)`, 'home' for `(D / E).with_suffix(S)` (also `D.joinpath(E)`,
+    `Path(D, E)`)."""
+    fn = sc.node
     out = {}
     for node in ast.walk(fn):
         if not is_attr_call(node, "with_suffix"):
             continue
-        if len(node.args) != 1 or not isinstance(node.args[0], ast.Constant):
+        if len(node.args) != 1 or node.keywords:
             raise TranslateError("%s: with_suffix argument is not a literal" % fn.name)
-        suffix = node.args[0].value
-        inner = node.func.value
-        if is_attr_call(inner, "with_name") and len(inner.args) == 1:
+        ok, suffix = sc.try_ev(node.args[0])
+        if not ok or not isinstance(suffix, str):
+            raise TranslateError("%s: with_suffix argument is not a literal" % fn.name)
+        inner = sc.deref(node.func.value)
+        base = ""
+        if is_attr_call(inner, "with_name") and len(inner.args) == 1 and not inner.keywords:
             kind, e = "companion", inner.args[0]
         elif isinstance(inner, ast.BinOp) and isinstance(inner.op, ast.Div):
-            kind, e = "home", inner.right
+            kind, e, base = "home", inner.right, inner.left
+        elif is_attr_call(inner, "joinpath") and len(inner.args) == 1 and not inner.keywords:
+            kind, e, base = "home", inner.args[0], inner.func.value
+        elif isinstance(inner, ast.Call) and U.call_name(inner) in ("Path", "PurePath") and len(inner.args) == 2 \
+                and not inner.keywords:
+            kind, e = "home", inner.args[1]
+            base = ast.Call(func=inner.func, args=[inner.args[0]], keywords=[])
         else:
             raise TranslateError("%s: unexpected cache path expression %s" % (fn.name, ast.unparse(node)))
-        parts = name_parts(e)
-        hv = [p[1] for p in parts if p[0] == 2]
-        if len(hv) != 1 or sum(1 for p in parts if p[0] == 1) != 1:
+        parts, hcall = name_parts(e, sc)
+        if hcall is None or sum(1 for p in parts if p[0] == 2) != 1 or sum(1 for p in parts if p[0] == 1) != 1:
             raise TranslateError("%s: cache file name must use the stem and the hash once each: %s"
                                  % (fn.name, ast.unparse(e)))
         if kind in out:
             raise TranslateError("%s: two %s cache names" % (fn.name, kind))
-        out[kind] = ([(k, "" if k == 2 else t) for k, t in parts], suffix, hv[0], ast.unparse(node))
+        if kind == "home":
+            b = sc.deref(base)
+            if U.call_name(b) in ("Path", "PurePath") and len(b.args) == 1:
+                base = b
+            base = ast.unparse(ast.fix_missing_locations(base))
+        out[kind] = CacheName(kind, parts, suffix, hcall, node, base)
     if set(out) != {"companion", "home"}:
         raise TranslateError("%s: expected a companion and a home cache name, found %s" % (fn.name, sorted(out)))
     return out
 
 
-def hash_def(fn, var):
-    """`var = hashlib.<algo>(<path>.read_bytes()).hexdigest()` -> algo; the key must come from the
-    file's bytes."""
-    for node in ast.walk(fn):
-        if isinstance(node, ast.Assign) and len(node.targets) == 1 and isinstance(node.targets[0], ast.Name) \
-                and node.targets[0].id == var:
-            v = node.value
-            if not is_attr_call(v, "hexdigest"):
-                raise TranslateError("%s: %s is not a hexdigest" % (fn.name, var))
-            h = v.func.value
-            if not (isinstance(h, ast.Call) and isinstance(h.func, ast.Attribute)
-                    and isinstance(h.func.value, ast.Name) and h.func.value.id == "hashlib"):
-                raise TranslateError("%s: %s does not come from hashlib" % (fn.name, var))
-            if len(h.args) != 1 or not is_attr_call(h.args[0], "read_bytes"):
-                raise TranslateError("%s: cache key is not computed from the model file's bytes: %s"
-                                     % (fn.name, ast.unparse(v)))
-            return h.func.attr
-    raise TranslateError("%s: definition of %s not found" % (fn.name, var))
+def first_use(sc, node):
+    """source position where the value of `node` is first used: if it is bound to a local, the first load of
+    that local after the binding; otherwise the node itself"""
+    par = sc.par
+    p = par.get(node)
+    if isinstance(p, ast.Assign) and p.value is node and len(p.targets) == 1 and isinstance(p.targets[0], ast.Name):
+        nm = p.targets[0].id
+        uses = [(n.lineno, n.col_offset) for n in ast.walk(sc.node)
+                if isinstance(n, ast.Name) and n.id == nm and isinstance(n.ctx, ast.Load)
+                and (n.lineno, n.col_offset) > (p.lineno, p.col_offset)]
+        if uses:
+            return min(uses)
+    return (node.lineno, node.col_offset)
 
 
-def guarded_by_not_lazy(node, par):
-    """Is `node` only evaluated when `lazy` is false (body of `if not lazy`, or `X if not lazy else Y`)?"""
-    def is_not_lazy(t):
-        return isinstance(t, ast.UnaryOp) and isinstance(t.op, ast.Not) and isinstance(t.operand, ast.Name) \
-            and t.operand.id == "lazy"
+def hash_def(sc, hcall):
+    """`hashlib.<algo>(<path>.read_bytes()).hexdigest()` -> algo; the key must come from the file's bytes."""
+    fn = sc.node
+    h = sc.deref(hcall.func.value)
+    if not isinstance(h, ast.Call) or h.keywords:
+        raise TranslateError("%s: the hash does not come from hashlib" % fn.name)
+    f = h.func
+    args = list(h.args)
+    algo = None
+    if isinstance(f, ast.Attribute) and isinstance(f.value, ast.Name) and f.value.id == "hashlib":
+        algo = f.attr
+    elif isinstance(f, ast.Name):
+        b = sc.module().bind.get(f.id)
+        if b and len(b) == 1 and b[0][0] == "import" and isinstance(b[0][1], ast.ImportFrom) \
+                and b[0][1].module == "hashlib" and not b[0][1].level and f.id not in sc.bind:
+            algo = b[0][2].name
+    if algo is None:
+        raise TranslateError("%s: the hash does not come from hashlib" % fn.name)
+    if algo == "new":
+        if len(args) != 2:
+            raise TranslateError("%s: hashlib.new(name, data) expected" % fn.name)
+        algo = sc.ev_str(args[0], "hashlib.new").lower()
+        args = args[1:]
+    if len(args) != 1 or not (is_attr_call(sc.deref(args[0]), "read_bytes") and not sc.deref(args[0]).args):
+        raise TranslateError("%s: cache key is not computed from the model file's bytes: %s"
+                             % (fn.name, ast.unparse(hcall)))
+    return algo
 
-    ch = node
-    while ch in par:
-        p = par[ch]
-        if isinstance(p, ast.IfExp) and is_not_lazy(p.test) and (ch is p.body or _contains(p.body, ch)):
-            return True
-        if isinstance(p, ast.If) and is_not_lazy(p.test) and any(ch is b or _contains(b, ch) for b in p.body):
-            return True
-        ch = p
+
+def is_name(n, ident):
+    return isinstance(n, ast.Name) and n.id == ident
+
+
+def is_version_attr(n, sc):
+    n = sc.deref(n)
+    return isinstance(n, ast.Attribute) and n.attr == VERSION_ATTR and isinstance(n.value, ast.Name) \
+        and n.value.id in ("self", "cls", CLS)
+
+
+def mentions_version_key(n, sc):
+    """`x.get("internal_version")` / `x["internal_version"]` (the key may be a constant expression)"""
+    n = sc.deref(n)
+    if isinstance(n, ast.Subscript) and not isinstance(n.slice, ast.Slice):
+        return sc.try_ev(n.slice) == (True, VERSION_KEY)
+    if is_attr_call(n, "get") and 1 <= len(n.args) <= 2 and not n.keywords:
+        if sc.try_ev(n.args[0]) != (True, VERSION_KEY):
+            return False
+        if len(n.args) == 2:           # a default equal to the current version would defeat the test
+            ok, v = sc.try_ev(n.args[1])
+            return ok and v is None
+        return True
     return False
+
+
+def is_version_test(a, sc):
+    if not (isinstance(a, ast.Compare) and len(a.ops) == 1 and isinstance(a.ops[0], ast.Eq)):
+        return False
+    l, r = a.left, a.comparators[0]
+    return (is_version_attr(l, sc) and mentions_version_key(r, sc)) or \
+        (is_version_attr(r, sc) and mentions_version_key(l, sc))
 
 
 def lean_bool(b):
     return "true" if b else "false"
 
 
+def _unstr(n):
+    while isinstance(n, ast.Call) and isinstance(n.func, ast.Name) and n.func.id == "str" and len(n.args) == 1:
+        n = n.args[0]
+    return n
+
+
 # --------------------------------------------------------------------------- the generator
 @generator("CacheConsts", [HW, "osaca/utils.py", "osaca/data/_build_cache.py", "osaca/data/*.yml",
-                           "osaca/data/isa/*.yml"])
+                           "osaca/data/isa/*.yml"] + SELF)
 def gen_cacheconsts():
-    tree = parse(HW)
-    methods = class_methods(tree, CLS)
+    U.reset_cache()
+    mod = U.mod_scope(HW)
+    cls = mod.cls(CLS)
+    methods = cls.methods()
     for m in ("__init__", "_get_cached", "_write_in_cache"):
         if m not in methods:
             raise TranslateError("%s.%s not found" % (CLS, m))
 
     # INTERNAL_VERSION = <int>  (class attribute)
-    version = None
-    for node in ast.walk(tree):
-        if isinstance(node, ast.ClassDef) and node.name == CLS:
-            for st in node.body:
-                if isinstance(st, ast.Assign) and any(
-                    isinstance(t, ast.Name) and t.id == "INTERNAL_VERSION" for t in st.targets
-                ):
-                    if not (isinstance(st.value, ast.Constant) and isinstance(st.value.value, int)
-                            and st.value.value >= 0):
-                        raise TranslateError("INTERNAL_VERSION is not a natural-number literal")
-                    version = st.value.value
-    if version is None:
+    if VERSION_ATTR not in cls.bind:
         raise TranslateError("INTERNAL_VERSION not found")
+    va = cls.class_attr(VERSION_ATTR)
+    if va is None:
+        raise TranslateError("INTERNAL_VERSION is not a natural-number literal")
+    ok, version = cls.try_ev(va[0])
+    if not ok or isinstance(version, bool) or not isinstance(version, int) or version < 0:
+        raise TranslateError("INTERNAL_VERSION is not a natural-number literal")
 
     # ---------------- _get_cached: names, key, version test, error handling
-    gc = methods["_get_cached"]
-    names_r = cache_name_exprs(gc)
-    algo_r = hash_def(gc, names_r["companion"][2])
-    if names_r["home"][2] != names_r["companion"][2]:
+    sgc = cls.fn("_get_cached")
+    gc = sgc.node
+    names_r = cache_name_exprs(sgc)
+    algo_r = hash_def(sgc, names_r["companion"].hcall)
+    if hash_def(sgc, names_r["home"].hcall) != algo_r or not U.same(
+            sgc.deref(names_r["home"].hcall.func.value), sgc.deref(names_r["companion"].hcall.func.value)):
         raise TranslateError("_get_cached: companion and home names use different hashes")
     # every `return <something that is not False/None>` must be under a test of internal_version
-    par = parents(gc)
+    par = sgc.par
     n_hits = 0
     for node in ast.walk(gc):
-        if isinstance(node, ast.Return) and node.value is not None and not (
-            isinstance(node.value, ast.Constant) and node.value.value in (False, None)
-        ):
+        if isinstance(node, ast.Return) and node.value is not None:
+            ok, v = sgc.try_ev(node.value)
+            if ok and (v is False or v is None):
+                continue
             n_hits += 1
-            ch, ok = node, False
-            while ch in par:
-                p = par[ch]
-                if isinstance(p, ast.If) and any(ch is b or _contains(b, ch) for b in p.body):
-                    src = ast.unparse(p.test)
-                    has_eq = any(isinstance(c, ast.Compare) and len(c.ops) == 1 and isinstance(c.ops[0], ast.Eq)
-                                 and "internal_version" in ast.unparse(c) and "INTERNAL_VERSION" in ast.unparse(c)
-                                 for c in ast.walk(p.test))
-                    if has_eq and " or " not in src:
-                        ok = True
-                ch = p
-            if not ok:
+            if not U.holds(U.path_conditions(node, par), lambda a: is_version_test(a, sgc), True):
                 raise TranslateError("_get_cached: a cache hit is returned without the internal_version test "
                                      "(line %d)" % node.lineno)
     if n_hits != 2:
         raise TranslateError("_get_cached: expected two cache-hit returns (companion, home), found %d" % n_hits)
     # order: companion probed before home
-    order = [k for _, k in sorted((min(n.lineno for n in ast.walk(gc)
-                                       if is_attr_call(n, "with_suffix") and ast.unparse(n) == v[3]), k)
-                                  for k, v in names_r.items())]
+    order = [k for _, k in sorted((first_use(sgc, v.node), k) for k, v in names_r.items())]
     if order != ["companion", "home"]:
         raise TranslateError("_get_cached: companion cache is not probed first")
     # pickle.load calls reachable from _get_cached
     loads = []
     for m in method_closure(methods, "_get_cached"):
         pm = parents(methods[m])
+        msc = cls.fn(m)
         for node in ast.walk(methods[m]):
-            if is_attr_call(node, "load", "pickle"):
+            if is_lib_call(node, msc, "pickle", ("load", "loads")):
                 loads.append(in_protected_try(node, pm))
     if not loads:
         raise TranslateError("_get_cached: no pickle.load found")
     tolerant = all(loads)
 
     # ---------------- _write_in_cache: same names, companion-if-writable-else-home, how files are written
-    wc = methods["_write_in_cache"]
-    names_w = cache_name_exprs(wc)
-    algo_w = hash_def(wc, names_w["companion"][2])
+    swc = cls.fn("_write_in_cache")
+    wc = swc.node
+    names_w = cache_name_exprs(swc)
+    algo_w = hash_def(swc, names_w["companion"].hcall)
+    if hash_def(swc, names_w["home"].hcall) != algo_w:
+        raise TranslateError("_write_in_cache: companion and home names use different hashes")
     for k in ("companion", "home"):
-        if names_w[k][:2] != names_r[k][:2]:
+        if (names_w[k].parts, names_w[k].suffix) != (names_r[k].parts, names_r[k].suffix):
             raise TranslateError("cache reader and writer build different %s names: %s vs %s"
-                                 % (k, names_r[k][3], names_w[k][3]))
+                                 % (k, names_r[k].doc(), names_w[k].doc()))
     if algo_r != algo_w:
         raise TranslateError("cache reader and writer hash differently")
     access_tests = [n for n in ast.walk(wc) if is_attr_call(n, "access", "os")]
@@ -267,8 +373,9 @@ def gen_cacheconsts():
     for m in method_closure(methods, "_write_in_cache"):
         fn = methods[m]
         pm = parents(fn)
+        msc = cls.fn(m)
         for node in ast.walk(fn):
-            if not is_attr_call(node, "dump", "pickle"):
+            if is_lib_call(node, msc, "pickle", ("dump",)) is None:
                 continue
             opened = None
             ch = node
@@ -277,11 +384,14 @@ def gen_cacheconsts():
                 if isinstance(p, ast.With):
                     for it in p.items:
                         ce = it.context_expr
-                        if isinstance(ce, ast.Call) and "wb" in ast.unparse(ce):
+                        if isinstance(ce, ast.Call):
+                            modes = [msc.try_ev(a) for a in list(ce.args) + [k.value for k in ce.keywords]]
+                            if not any(ok and isinstance(v, str) and "w" in v and "b" in v for ok, v in modes):
+                                continue
                             if is_attr_call(ce, "open") and isinstance(ce.func.value, ast.Name):
                                 opened = ce.func.value.id
                             elif isinstance(ce.func, ast.Name) and ce.func.id == "open" and ce.args:
-                                opened = ast.unparse(ce.args[0])
+                                opened = ast.unparse(_unstr(ce.args[0]))
                 ch = p
             if opened is None:
                 raise TranslateError("%s: pickle.dump outside `with <path>.open('wb')`" % m)
@@ -291,17 +401,16 @@ def gen_cacheconsts():
                         and n2.func.attr in ("replace", "rename") and getattr(n2, "lineno", 0) > node.lineno:
                     src0 = None
                     if isinstance(n2.func.value, ast.Name) and n2.func.value.id == "os" and n2.args:
-                        src0 = ast.unparse(n2.args[0])
+                        src0 = ast.unparse(_unstr(n2.args[0]))
                     elif isinstance(n2.func.value, ast.Name):
                         src0 = n2.func.value.id
-                    if src0 is not None and (src0 == opened or src0 == "str(%s)" % opened):
+                    if src0 is not None and src0 == opened:
                         moved = True
             # the temporary name must not be one of the final names themselves
-            finals = [v[3] for v in names_w.values()]
             is_final_var = False
             for n3 in ast.walk(wc):
                 if isinstance(n3, ast.Assign) and len(n3.targets) == 1 and isinstance(n3.targets[0], ast.Name) \
-                        and n3.targets[0].id == opened and ast.unparse(n3.value) in finals:
+                        and n3.targets[0].id == opened and any(n3.value is v.node for v in names_w.values()):
                     is_final_var = True
             dumps.append(moved and not is_final_var)
     if not dumps:
@@ -309,8 +418,11 @@ def gen_cacheconsts():
     atomic = all(dumps)
 
     # ---------------- __init__: lazy bypasses every cache; the runtime-cache probe never decides
-    init = methods["__init__"]
-    pi = parents(init)
+    sinit = cls.fn("__init__")
+    init = sinit.node
+    pi = sinit.par
+    if not sinit.is_param("lazy"):
+        raise TranslateError("__init__: parameter `lazy` not found")
     gets = [n for n in ast.walk(init) if is_attr_call(n, "_get_cached", "self")]
     writes = [n for n in ast.walk(init) if is_attr_call(n, "_write_in_cache", "self")]
     rt_stores = [n for n in ast.walk(init) if isinstance(n, ast.Assign) and any(
@@ -318,9 +430,30 @@ def gen_cacheconsts():
     if len(gets) != 1 or len(writes) != 1 or len(rt_stores) != 1:
         raise TranslateError("__init__: expected one _get_cached call, one _write_in_cache call and one "
                              "runtime-cache store (found %d, %d, %d)" % (len(gets), len(writes), len(rt_stores)))
-    lazy_bypasses = all(guarded_by_not_lazy(n, pi) for n in gets + writes + rt_stores)
+
+    def not_lazy(n):
+        return U.holds(U.path_conditions(n, pi), lambda a: is_name(a, "lazy"), False)
+
+    lazy_bypasses = all(not_lazy(n) for n in gets + writes + rt_stores)
     # runtime-cache probe: an `if … _runtime_cache …:` without else whose successor statement computes
     # `cached` from _get_cached unconditionally; both branches of `if cached` then assign self._data
+    def assigns_data(stmts):
+        return any(isinstance(n, ast.Assign) and any(ast.unparse(t) == "self._data" for t in n.targets)
+                   for s in stmts for n in ast.walk(s))
+
+    def binds_from_get(st):
+        """`c = <.. _get_cached ..>`  or  `if ..: c = <.. _get_cached ..> else: c = ..` -> c"""
+        if isinstance(st, ast.Assign) and len(st.targets) == 1 and isinstance(st.targets[0], ast.Name) \
+                and _contains(st, gets[0]):
+            return st.targets[0].id
+        if isinstance(st, ast.If) and len(st.body) == 1 and len(st.orelse) == 1 and _contains(st, gets[0]) \
+                and not _contains(st.test, gets[0]):
+            a, b = st.body[0], st.orelse[0]
+            if all(isinstance(x, ast.Assign) and len(x.targets) == 1 and isinstance(x.targets[0], ast.Name)
+                   for x in (a, b)) and a.targets[0].id == b.targets[0].id:
+                return a.targets[0].id
+        return None
+
     rt_overwritten = False
     stmt_lists = [getattr(node, f) for node in ast.walk(init) for f in ("body", "orelse", "finalbody")
                   if isinstance(getattr(node, f, None), list)]
@@ -328,32 +461,29 @@ def gen_cacheconsts():
         for i, st in enumerate(body):
             if isinstance(st, ast.If) and "_runtime_cache" in ast.unparse(st.test):
                 nxt = body[i + 1:i + 3]
-                if (not st.orelse and len(nxt) == 2 and isinstance(nxt[0], ast.Assign)
-                        and _contains(nxt[0], gets[0]) and isinstance(nxt[1], ast.If)
-                        and isinstance(nxt[1].test, ast.Name)
-                        and isinstance(nxt[0].targets[0], ast.Name)
-                        and nxt[1].test.id == nxt[0].targets[0].id and nxt[1].orelse):
-                    def assigns_data(stmts):
-                        return any(isinstance(n, ast.Assign) and any(ast.unparse(t) == "self._data" for t in n.targets)
-                                   for s in stmts for n in ast.walk(s))
-                    rt_overwritten = assigns_data(nxt[1].body) and assigns_data(nxt[1].orelse)
+                if not st.orelse and len(nxt) == 2 and not U.always_exits(st.body):
+                    c = binds_from_get(nxt[0])
+                    if c is not None and isinstance(nxt[1], ast.If) and nxt[1].orelse \
+                            and is_name(U.strip_not(nxt[1].test)[0], c):
+                        rt_overwritten = assigns_data(nxt[1].body) and assigns_data(nxt[1].orelse)
     # the version stamp is put into the data before it is written
-    stamps = [n for n in ast.walk(init) if isinstance(n, ast.Assign) and "internal_version" in ast.unparse(n.targets[0])
-              and "INTERNAL_VERSION" in ast.unparse(n.value)]
+    stamps = [n for n in ast.walk(init) if isinstance(n, ast.Assign) and len(n.targets) == 1
+              and mentions_version_key(n.targets[0], sinit) and is_version_attr(n.value, sinit)]
     stamped = bool(stamps) and all(s.lineno < writes[0].lineno for s in stamps)
 
     # ---------------- utils.DATA_DIRS / CACHE_DIR
-    ut = parse("osaca/utils.py")
-    data_dirs = cache_dir = None
-    for node in ut.body:
-        if isinstance(node, ast.Assign) and isinstance(node.targets[0], ast.Name):
-            if node.targets[0].id == "DATA_DIRS":
-                if not isinstance(node.value, ast.List):
-                    raise TranslateError("utils.DATA_DIRS is not a list literal")
-                data_dirs = [ast.unparse(e) for e in node.value.elts]
-            if node.targets[0].id == "CACHE_DIR":
-                cache_dir = ast.unparse(node.value)
-    if not data_dirs or cache_dir is None:
+    usc = U.mod_scope("osaca/utils.py")
+    ut = usc.tree
+    dd = usc.bind.get("DATA_DIRS")
+    cd = usc.bind.get("CACHE_DIR")
+    if not dd or not cd or len(dd) != 1 or len(cd) != 1 or dd[0][0] != "assign" or cd[0][0] != "assign" \
+            or not any(s is dd[0][2] for s in ut.body) or not any(s is cd[0][2] for s in ut.body):
+        raise TranslateError("utils.DATA_DIRS / CACHE_DIR not found")
+    if not isinstance(dd[0][1], ast.List) or any(isinstance(e, ast.Starred) for e in dd[0][1].elts):
+        raise TranslateError("utils.DATA_DIRS is not a list literal")
+    data_dirs = [ast.unparse(U.fold_constants(e, usc)) for e in dd[0][1].elts]
+    cache_dir = ast.unparse(U.fold_constants(cd[0][1], usc))
+    if not data_dirs:
         raise TranslateError("utils.DATA_DIRS / CACHE_DIR not found")
     user_first = "expanduser" in data_dirs[0] and "__file__" in data_dirs[-1]
     fd = find_func(ut, "find_datafile")
@@ -404,12 +534,12 @@ def gen_cacheconsts():
     o.append("/-- `_build_cache.py` fills the package directory with full, non-lazy loads of each file -/")
     o.append("def cacheBuildUsesLoader : Bool := %s\n" % lean_bool(build_full))
     o.append("/-- cache file names; parts: (0, text) literal, (1, _) the model file's stem, (2, _) the hash -/")
-    o.append("-- %s" % names_r["companion"][3])
-    o.append("def cacheCompanionParts : List (Nat × List Nat) := %s" % parts_lit(names_r["companion"][0]))
-    o.append("def cacheCompanionSuffix : List Nat := %s" % txt(names_r["companion"][1]))
-    o.append("-- %s" % names_r["home"][3])
-    o.append("def cacheHomeParts : List (Nat × List Nat) := %s" % parts_lit(names_r["home"][0]))
-    o.append("def cacheHomeSuffix : List Nat := %s\n" % txt(names_r["home"][1]))
+    o.append("-- %s" % names_r["companion"].doc())
+    o.append("def cacheCompanionParts : List (Nat × List Nat) := %s" % parts_lit(names_r["companion"].parts))
+    o.append("def cacheCompanionSuffix : List Nat := %s" % txt(names_r["companion"].suffix))
+    o.append("-- %s" % names_r["home"].doc())
+    o.append("def cacheHomeParts : List (Nat × List Nat) := %s" % parts_lit(names_r["home"].parts))
+    o.append("def cacheHomeSuffix : List Nat := %s\n" % txt(names_r["home"].suffix))
     o.append("/-- the key is `hashlib.%s(<file>.read_bytes()).hexdigest()` -/" % algo_r)
     o.append("def cacheHashAlgo : List Nat := %s" % txt(algo_r))
     o.append("def cacheHashHexLen : Nat := %d\n" % hexlen)
